@@ -23,3 +23,15 @@ package main
 //@   modifies ghost cacheKnows, ghost managed, heap(tpb.Target.Addresses)
 //@   invariant 0: forall k string :: has(managed, k) && !old(has(managed, k)) ==> has(cacheKnows, k)
 //@   ensures [every-started-target-is-cacheKnows C01] forall k string :: has(managed, k) && !old(has(managed, k)) ==> has(cacheKnows, k)
+
+// The update callback handed to the target manager: whatever the target reported, the
+// notification is stamped with the name the target is managed under, an empty origin
+// is promoted to "openconfig", and exactly that notification is fed to the cache.
+//@ func runCollector$2
+//@   props C01 C12
+//@   requires v != nil && c.cache != nil
+//@   modifies v.Prefix, heap(gnmipb.Path.Target), heap(gnmipb.Path.Origin)
+//@   assert at call (*Cache).GnmiUpdate#0: [the-stamped-notification-is-what-the-cache-gets C01] arg1 == v && v.Prefix != nil && v.Prefix.Target == target && v.Prefix.Origin != ""
+//@   ensures [stamped-with-the-managed-name C01] v.Prefix != nil && v.Prefix.Target == target
+//@   ensures [empty-origin-promoted C01] old(v.Prefix) == nil || old(v.Prefix.Origin) == "" ==> v.Prefix.Origin == "openconfig"
+//@   ensures [reported-origin-kept C01] old(v.Prefix) != nil && old(v.Prefix.Origin) != "" ==> v.Prefix == old(v.Prefix) && v.Prefix.Origin == old(v.Prefix.Origin)
